@@ -41,16 +41,16 @@ func ToUnicode(name string, dingbats bool) []rune {
 	parts := strings.Split(name, "_")
 	for _, part := range parts {
 		if dingbats {
-			c, ok := glyph.lookup("zapfdingbats", part)
+			cc, ok := glyph.lookupSeq("zapfdingbats", part)
 			if ok {
-				res = append(res, c)
+				res = append(res, cc...)
 				continue
 			}
 		}
 
-		c, ok := glyph.lookup("glyphlist", part)
+		cc, ok := glyph.lookupSeq("glyphlist", part)
 		if ok {
-			res = append(res, c)
+			res = append(res, cc...)
 			continue
 		}
 
@@ -116,7 +116,7 @@ func FromUnicode(r rune) string {
 
 type glyphMap struct {
 	sync.Mutex
-	nameToRune map[string]map[string]rune
+	nameToRune map[string]map[string][]rune
 	runeToName map[rune]string
 }
 
@@ -165,21 +165,32 @@ func (gm *glyphMap) getEncode() map[rune]string {
 	return r2n
 }
 
+// lookup returns the first character for a glyph name.
 func (gm *glyphMap) lookup(file, name string) (rune, bool) {
+	cc, ok := gm.lookupSeq(file, name)
+	if !ok || len(cc) == 0 {
+		return 0, false
+	}
+	return cc[0], true
+}
+
+// lookupSeq returns the character sequence for a glyph name.  Some entries of
+// the Adobe Glyph List map to more than one character.
+func (gm *glyphMap) lookupSeq(file, name string) ([]rune, bool) {
 	gm.Lock()
 	defer gm.Unlock()
 
 	fMap := gm.getFile(file)
-	c, ok := fMap[name]
-	return c, ok
+	cc, ok := fMap[name]
+	return cc, ok
 }
 
-func (gm *glyphMap) getFile(file string) map[string]rune {
+func (gm *glyphMap) getFile(file string) map[string][]rune {
 	fMap := gm.nameToRune[file]
 	if fMap != nil {
 		return fMap
 	}
-	fMap = make(map[string]rune)
+	fMap = make(map[string][]rune)
 
 	fd, err := glyphData.Open("agl-aglfn/" + file + ".txt")
 	if err != nil {
@@ -194,17 +205,27 @@ func (gm *glyphMap) getFile(file string) map[string]rune {
 		}
 		ww := strings.SplitN(line, ";", 2)
 		name := ww[0]
-		code, _ := strconv.ParseInt(ww[1], 16, 32)
+		var codes []rune
+		for _, field := range strings.Fields(ww[1]) {
+			code, err := strconv.ParseInt(field, 16, 32)
+			if err != nil {
+				panic("corrupted glyph map " + file)
+			}
+			codes = append(codes, rune(code))
+		}
+		if len(codes) == 0 {
+			continue
+		}
 
 		// fix up some swapped character codes
 		switch {
-		case name == "Tcommaaccent" && code == 0x0162:
-			code = 0x021A
-		case name == "tcommaaccent" && code == 0x0163:
-			code = 0x021B
+		case name == "Tcommaaccent" && codes[0] == 0x0162:
+			codes[0] = 0x021A
+		case name == "tcommaaccent" && codes[0] == 0x0163:
+			codes[0] = 0x021B
 		}
 
-		fMap[name] = rune(code)
+		fMap[name] = codes
 	}
 	if err := scanner.Err(); err != nil {
 		panic("corrupted glyph map " + file)
@@ -215,7 +236,7 @@ func (gm *glyphMap) getFile(file string) map[string]rune {
 }
 
 var glyph = &glyphMap{
-	nameToRune: make(map[string]map[string]rune),
+	nameToRune: make(map[string]map[string][]rune),
 }
 
 //go:embed agl-aglfn/*.txt
